@@ -31,7 +31,7 @@ ASSUMPTIONS = ["the caller replays in pass 2 only loads of pass 1 (a fact about 
 
 
 def run(ctx):
-    for r in (_r1, _r2, _r3, _r5):
+    for r in (_r1, _r2, _r3, _r5, _r6):
         ctx.attempt(r)
 
 
@@ -126,6 +126,69 @@ def _r2(ctx):
         ctx.holds(r, st[0], "recorder appends the pass number once per recorded row")
     else:
         ctx.violated(r, st[0] if st else r.node, "recorder does not append the pass number once per recorded hysteresis row")
+
+
+def _r6(ctx):
+    """Several assessment points: reversals are detected on a representative sequence (one value per load step) and the
+    returned positions are looked up in the table of load-step labels.  Both must list the load steps in the same order -
+    the order of appearance in the input; a key-sorted groupby / unique would pair positions with the wrong load steps
+    whenever the labels are not ascending."""
+    from ..orders import Orders
+    prog = ctx.prog
+    ctx.rule("R-C04-6", floor=2, what="representative sequence and load-step table of the multi-point path are both in order of appearance")
+    f = prog.func(D + "process")
+    chunk = [q for q in f.params if q != "self"][0]
+    o = Orders(prog, [f.module.name], seed_env=lambda fi: {chunk: "ROW"})
+    env = {chunk: "ROW"}
+    nt = [c for c in calls_in(f.node) if isinstance(c.func, ast.Attribute) and is_self_attr(c.func) and c.func.attr == "_new_turns"]
+    if len(nt) != 1 or not nt[0].args or not isinstance(nt[0].args[0], ast.Name):
+        raise AnalysisError("process: call of _new_turns with a named sequence not found")
+    seq = nt[0].args[0].id
+    st = nt[0]._parent
+    pos = st.targets[0].elts[0].id if isinstance(st, ast.Assign) and isinstance(st.targets[0], ast.Tuple) and \
+        isinstance(st.targets[0].elts[0], ast.Name) else None
+    if pos is None:
+        raise AnalysisError("process: positions returned by _new_turns are not bound to a name")
+    defs = [s_ for s_ in walk_stmts(f.node.body) if isinstance(s_, ast.Assign) and isinstance(s_.targets[0], ast.Name) and
+            s_.targets[0].id == seq]
+    if not defs:
+        raise AnalysisError("process: definition of %s not found" % seq)
+    for d in defs:
+        k = o.oc(d.value, env, f)
+        if k in ("ROW", "ROWG"):
+            ctx.holds(f, d, "sequence for reversal detection %s: order of appearance" % norm_text(d.value))
+        elif k in ("GROUPED", "SORTED"):
+            ctx.violated(f, d, "the sequence handed to the reversal detection, %s, is ordered by load-step label (%s), not by "
+                         "appearance: for labels that are not ascending the reversals are searched in a permuted history" %
+                         (norm_text(d.value), k), text="representative sequence order")
+        else:
+            raise AnalysisError("process: order class of %s unknown" % norm_text(d.value))
+    # tables indexed with positions derived from the detection result
+    derived = {pos}
+    for _ in range(3):
+        for s_ in walk_stmts(f.node.body):
+            if isinstance(s_, ast.Assign) and isinstance(s_.targets[0], ast.Name) and names_in(s_.value) & derived:
+                if not any(isinstance(n, ast.Subscript) for n in ast.walk(s_.value)):
+                    derived.add(s_.targets[0].id)
+    n = 0
+    for node in ast.walk(f.node):
+        if isinstance(node, ast.Subscript) and isinstance(node.value, ast.Attribute) and node.value.attr == "iloc" and \
+                isinstance(node.value.value, ast.Name) and names_in(node.slice) & derived:
+            tab = node.value.value.id
+            tdefs = [s_ for s_ in walk_stmts(f.node.body) if isinstance(s_, ast.Assign) and isinstance(s_.targets[0], ast.Name)
+                     and s_.targets[0].id == tab]
+            for d in tdefs:
+                k = o.oc(d.value, env, f)
+                n += 1
+                if k in ("ROW", "ROWG"):
+                    ctx.holds(f, d, "load-step table %s = %s: order of appearance, same as the detected sequence" % (tab, norm_text(d.value)))
+                elif k in ("GROUPED", "SORTED"):
+                    ctx.violated(f, d, "the table %s that is indexed with the detected positions is sorted by label (%s) while the "
+                                 "sequence is in order of appearance" % (tab, norm_text(d.value)), text="load-step table order")
+                else:
+                    raise AnalysisError("process: order class of %s unknown" % norm_text(d.value))
+    if n == 0:
+        raise AnalysisError("process: no table indexed with the detected positions found")
 
 
 def _unpack_names(f):
@@ -276,6 +339,25 @@ C = "FKMNonlinearDetector."
 
 def variants():
     out = []
+
+    def sorted_groupby(tree):
+        f = find_func(tree, "FKMNonlinearDetector.process")
+        for c in calls_in(f):
+            if isinstance(c.func, ast.Attribute) and c.func.attr == "groupby":
+                c.keywords = [k for k in c.keywords if k.arg != "sort"]
+                return True
+        return False
+    out.append(witness("representative sequence from a key-sorted groupby", FN, sorted_groupby, "R-C04-6"))
+
+    def sorted_table(tree):
+        f = find_func(tree, "FKMNonlinearDetector.process")
+        for n in ast.walk(f):
+            if isinstance(n, ast.Call) and isinstance(n.func, ast.Attribute) and n.func.attr == "unique":
+                n.func = parse_expr("np.unique")
+                n.args = [parse_expr("samples.index.get_level_values('load_step')")]
+                return True
+        return False
+    out.append(witness("load-step table from np.unique (sorted)", FN, sorted_table, "R-C04-6"))
 
     def no_flush(tree):
         f = find_func(tree, C + "process_hcm_second")
